@@ -163,6 +163,11 @@ func TestC12Mixed(t *testing.T) {
 		// a few characters, each as string, rune and byte: same character, different literal
 		chars := []rune{'a', '0', '"', '\'', '\\', '\n', 0, 0x7f, 0xc8, 'é', '日', 0x2028, 0x1F600}
 		n := rapid.IntRange(1, 6).Draw(rt, "n")
+		if rapid.IntRange(0, 9).Draw(rt, "table") == 0 {
+			// literal tables: long lists of nothing but literals
+			n = rapid.SampledFrom([]int{15, 16, 17, 31, 32, 33, 48, 64, 100, 128, 255, 256, 257}).Draw(rt, "tablesize")
+			r.Class("mixed:literal_table")
+		}
 		same := false
 		for i := 0; i < n; i++ {
 			var it Case
